@@ -261,7 +261,8 @@ impl Backend {
         line: usize,
         param_name: &str,
     ) -> Option<Vec<Range>> {
-        let content = self.fixture_db.file_cache.get(file_path)?;
+        // (cached text, else the file on disk: the text cache drops closed and evicted files)
+        let content = self.fixture_db.get_file_content(file_path)?;
         let lines: Vec<&str> = content.lines().collect();
 
         // Get the line (0-indexed internally, but definition.line is 1-indexed)
